@@ -290,7 +290,7 @@ pub struct DepOutcome {
 pub fn dep_probe(cfg: Config, script: &DepScript) -> DepOutcome {
     let n = script.n;
     let dep = Arc::new(probe::Dependency::new(n));
-    let committed = Arc::new(AtomicUsize::new(0));
+    let committed = Arc::new(verif::sync::AtomicUsize::new(0));
     // tx_states[i] of the scheduler: the controller-aware facade lock, held across a whole attempt.
     let status: Arc<Vec<verif::sync::Mutex<(St, usize)>>> =
         Arc::new((0..n).map(|_| verif::sync::Mutex::new((St::Ready, 0))).collect());
@@ -465,6 +465,146 @@ pub fn dep_probe(cfg: Config, script: &DepScript) -> DepOutcome {
         executions: executions.iter().map(|e| e.load(Ordering::SeqCst)).collect(),
         double_claims: double_claims.lock().unwrap().clone(),
     }
+}
+
+// ------------------------------------------------------------------------------------------
+// Beneficiary history
+// ------------------------------------------------------------------------------------------
+
+#[derive(Clone, Debug)]
+pub enum HistOp {
+    /// (incarnation, kind, value): kind = reward | snap | unchanged | est; snap value -1 = deleted
+    Rec(usize, String, i64),
+    Inv(usize),
+}
+
+#[derive(Clone, Debug)]
+pub struct HistScript {
+    pub anchor: i64,
+    pub ops: Vec<Vec<HistOp>>,
+    /// balances are placed just below U256::MAX so that the model's saturation bound is revm's overflow
+    pub near_max: bool,
+}
+
+pub const HIST_MAXBAL: i64 = 20;
+
+pub struct HistOutcome {
+    pub record: RunRecord,
+    pub value: Option<i64>,
+    pub valid: bool,
+    pub expected: i64,
+    pub final_ok: bool,
+}
+
+fn to_real(b: i64, near_max: bool) -> revm_primitives::U256 {
+    use revm_primitives::U256;
+    if near_max { U256::MAX - U256::from(HIST_MAXBAL as u64) + U256::from(b as u64) } else { U256::from(b as u64) }
+}
+fn from_real(v: revm_primitives::U256, near_max: bool) -> i64 {
+    use revm_primitives::U256;
+    let x = if near_max { v - (U256::MAX - U256::from(HIST_MAXBAL as u64)) } else { v };
+    x.try_into().unwrap_or(i64::MAX)
+}
+
+/// In-order value before the reader: every writer contributes its last incarnation's effect.
+pub fn hist_expected(s: &HistScript) -> i64 {
+    let mut b = s.anchor;
+    for w in &s.ops {
+        let last = w
+            .iter()
+            .filter_map(|o| if let HistOp::Rec(i, k, v) = o { Some((*i, k.clone(), *v)) } else { None })
+            .max_by_key(|x| x.0)
+            .unwrap();
+        match last.1.as_str() {
+            "reward" => {
+                let x = if b == -1 { 0 } else { b };
+                b = if x + last.2 > HIST_MAXBAL && s.near_max { x } else { x + last.2 };
+            }
+            "snap" => b = last.2,
+            _ => {}
+        }
+    }
+    b
+}
+
+pub fn hist_probe(cfg: Config, script: &HistScript) -> HistOutcome {
+    use revm_primitives::U256;
+    let n = script.ops.len();
+    let nm = script.near_max;
+    let hist = Arc::new(probe::History::new(
+        if script.anchor < 0 { None } else { Some(to_real(script.anchor, nm)) },
+        n + 1,
+    ));
+    let done = Arc::new(AtomicUsize::new(0));
+    let result = Arc::new(Mutex::new((None::<i64>, false)));
+    let mut roots: Vec<(String, Body)> = Vec::new();
+    for (j, ops) in script.ops.iter().cloned().enumerate() {
+        let (hist, done) = (hist.clone(), done.clone());
+        roots.push((
+            format!("w{j}"),
+            Box::new(move |_ctl| {
+                for op in ops {
+                    match op {
+                        HistOp::Rec(inc, kind, v) => {
+                            let _ = match kind.as_str() {
+                                "reward" => hist.record(j, inc, Some(Ok(U256::from(v as u64)))),
+                                "snap" => hist.record(j, inc, Some(Err(if v < 0 { None } else { Some(to_real(v, nm)) }))),
+                                "unchanged" => hist.record(j, inc, None),
+                                _ => hist.record_estimate(j, inc),
+                            };
+                        }
+                        HistOp::Inv(inc) => {
+                            let _ = hist.invalidate(j, inc);
+                        }
+                    }
+                }
+                done.fetch_add(1, Ordering::SeqCst);
+            }),
+        ));
+    }
+    {
+        let (hist, done, result) = (hist.clone(), done.clone(), result.clone());
+        roots.push((
+            "r".into(),
+            Box::new(move |ctl| {
+                // resolve (retry while blocked by an estimate), then the decisive validation once
+                // every predecessor has published its last incarnation
+                let read = loop {
+                    if ctl.aborted() {
+                        return;
+                    }
+                    match hist.resolve_before(n) {
+                        Ok(r) => break r,
+                        Err(_) => {
+                            verif::spin_begin();
+                            ctl.user_point("HR_Retry");
+                            verif::spin_end();
+                        }
+                    }
+                };
+                loop {
+                    ctl.user_point("HR_Wait");
+                    verif::spin_begin();
+                    if done.load(Ordering::SeqCst) == n || ctl.aborted() {
+                        break;
+                    }
+                    verif::spin_end();
+                }
+                let (valid, _) = hist.validate(n, &read.origins);
+                *result.lock().unwrap() = (Some(read.balance.map_or(-1, |b| from_real(b, nm))), valid);
+            }),
+        ));
+    }
+    let record = run_roots(cfg, roots);
+    let (value, valid) = *result.lock().unwrap();
+    // the newest incarnation of every writer must be what the history holds at the end
+    let mut final_ok = true;
+    for (j, ops) in script.ops.iter().enumerate() {
+        let last = ops.iter().filter_map(|o| if let HistOp::Rec(i, _, _) = o { Some(*i) } else { None }).max().unwrap();
+        // a re-record of the same-or-older incarnation must be refused, a newer one accepted
+        final_ok &= !hist.record_estimate(j, last) && hist.invalidate(j, last);
+    }
+    HistOutcome { record, value, valid, expected: hist_expected(script), final_ok }
 }
 
 pub fn default_policy(seed: u64, groups: u32, policy: Policy) -> Config {
